@@ -1474,8 +1474,13 @@ func (s *SelectStatement) RewriteRegexConditions() {
 			return e
 		}
 
-		// Handle regex-based condition.
-		rhs := be.RHS.(*RegexLiteral) // This must be a regex.
+		// Handle regex-based condition. The parser puts a regex on the right
+		// of the operator, but a higher-precedence operator after it
+		// (`x =~ /a/ / 2`) makes the right side an expression: leave it alone.
+		rhs, ok := be.RHS.(*RegexLiteral)
+		if !ok || rhs.Val == nil {
+			return e
+		}
 
 		vals, ok := matchExactRegex(rhs.Val.String())
 		if !ok {
